@@ -121,8 +121,8 @@ struct Query {
   std::string kind;    // utc delta abbrev odt zdt zdc print prints zid
   int64_t e = 0;       // epoch seconds
   int y = 2000, mo = 1, d = 1, h = 0, mi = 0, s = 0;
-  bool byComponents() const { return kind == "odt" || kind == "zdc"; }
-  bool byEpoch() const { return kind == "utc" || kind == "delta" || kind == "abbrev" || kind == "zdt"; }
+  bool byComponents() const { return kind == "odt" || kind == "zdc" || kind == "zopc"; }
+  bool byEpoch() const { return kind == "utc" || kind == "delta" || kind == "abbrev" || kind == "zdt" || kind == "zops"; }
   int year() const { return byComponents() ? y : yearOfEpoch(e); }
 };
 
@@ -153,6 +153,32 @@ static Ans ask(const TimeZone& tz, const Query& q) {
         : ZonedDateTime::forEpochSeconds((acetime_t)q.e, tz);
     a.err = z.isError();
     if (!a.err) fillFields(a, z);
+  } else if (q.kind == "zops" || q.kind == "zopc") {
+    // device profile: the further public operations on a resolved date-time (no oracle beyond
+    // "no crash / no UB / errors stay errors"; C08 compares them with a fresh zone like any answer)
+    ZonedDateTime z = q.kind == "zopc"
+        ? ZonedDateTime::forComponents((int16_t)q.y, (uint8_t)q.mo, (uint8_t)q.d, (uint8_t)q.h, (uint8_t)q.mi,
+              (uint8_t)q.s, tz)
+        : ZonedDateTime::forEpochSeconds((acetime_t)q.e, tz);
+    a.err = z.isError();
+    StrPrint sp;
+    z.printTo(sp);
+    a.s = sp.c_str();
+    if (!a.err) {
+      fillFields(a, z);
+      if (z.year() >= 1932 && z.year() <= 2067) {   // date -> epoch conversions outside this range are not exercised
+        a.v[7] = z.toEpochSeconds();
+        a.n = 8;
+        ZonedDateTime u = z.convertToTimeZone(TimeZone::forUtc());
+        StrPrint sp2;
+        u.printTo(sp2);
+        a.s += "|";
+        a.s += sp2.c_str();
+        a.s += fmt("|dow%d", (int)z.dayOfWeek());
+        OffsetDateTime o = OffsetDateTime::forEpochSeconds(z.toEpochSeconds(), z.timeOffset());
+        if (o.isError() || o.toEpochSeconds() != z.toEpochSeconds()) a.s += "|odt-roundtrip-differs";
+      }
+    }
   } else if (q.kind == "print" || q.kind == "prints") {
     StrPrint sp;
     if (q.kind == "print") tz.printTo(sp); else tz.printShortTo(sp);
@@ -484,7 +510,7 @@ void TzDevice::doQuery(int c, const Query& q, int opIndex, Verdict& v, Coverage&
     bool badcomp = strcmp(ac, "badcomp") == 0;
     bool far = isZone(d.kind) && fills && (year <= startYear - 3 || year >= untilYear + 2);
     bool expectErr = false;
-    if (sentinel && (q.kind == "zdt" || isZone(d.kind))) expectErr = true;
+    if (sentinel && (q.kind == "zdt" || q.kind == "zops" || isZone(d.kind))) expectErr = true;
     if (badcomp) expectErr = true;
     if (far) expectErr = true;
     if (d.kind == K_ERROR && fills) expectErr = true;
@@ -987,6 +1013,13 @@ struct Gen {
       }
       if (mix.extremes && rng.chance(1, 16)) { y = rng.chance(1, 2) ? (int)rng.range(1873, 1931) : (int)rng.range(2069, 2127); oor = true; }
       return fmt("%s %d %d %d %d %d %d", rng.chance(1, 2) ? "odt" : "zdc", y, mo, d, h, mi, s);
+    }
+    if (mix.extremes && k < 90) {
+      if (rng.chance(1, 2)) return fmt("zops %lld", (long long)drawEpoch(oor));
+      int64_t e = drawEpoch(oor);
+      int y = 0, mo = 0, d = 0, h = 0, mi = 0, s = 0;
+      if (e != LocalDate::kInvalidEpochSeconds) civilFromEpoch(e, y, mo, d, h, mi, s);
+      return fmt("zopc %d %d %d %d %d %d", y, mo, d, h, mi, s);
     }
     if (k < 92) return "print";
     if (k < 97) return "prints";
